@@ -480,7 +480,17 @@ func (m *Machine) ResolveBalances(ctx context.Context, store Store) error {
 
 	m.Balances = make(map[machine.AccountAddress]map[machine.Asset]*machine.MonetaryInt)
 
-	for address, resourceIndex := range m.UnresolvedResourceBalances {
+	// one lookup per balance() variable: several variables may target the same account
+	for resourceIndex, res := range m.UnresolvedResources {
+		variable, ok := res.(program.VariableAccountBalance)
+		if !ok || resourceIndex >= len(m.Resources) {
+			continue
+		}
+		acc, ok := m.getResource(variable.Account)
+		if !ok {
+			return errors.New("invalid program (resolve balances: invalid address of account)")
+		}
+		address := string((*acc).(machine.AccountAddress))
 		monetary := m.Resources[resourceIndex].(machine.Monetary)
 		balance, err := store.GetBalance(ctx, address, string(monetary.Asset))
 		if err != nil {
